@@ -1326,6 +1326,8 @@ func TestVerif_C07(t *testing.T) {
 		}
 	}
 	st.passwordChecker = htChecker
+	// ---------------- the same backends over time: the file is edited between logins (c07b.go)
+	fcases, fidx := c07BackendHistories(t, e, res, rng)
 
 	var sb strings.Builder
 	sb.WriteString(coqCaseHeader)
@@ -1342,6 +1344,16 @@ func TestVerif_C07(t *testing.T) {
 	sb.WriteString("Definition bfile (u : bs) (p : bs) : bool := existsb (fun e => bs_eqb (fst e) u && bs_eqb [snd e] p) btable.\n")
 	sb.WriteString("Definition bcases : list (bs * N * bool) := [\n" + strings.Join(bcases, ";\n") + "\n].\n")
 	sb.WriteString("Definition c07_backend_mismatches := Eval vm_compute in mismatches (fun c => let '(u, p, v) := c in negb (Bool.eqb (backend_login bfile u [p]) v)) bcases.\nPrint c07_backend_mismatches.\n")
+	// the backends over time: per-login verdicts of the real code = the model's run of the same history;
+	// on a mismatching history, the property's predicate on the observation (a login answered otherwise
+	// than the content of the file at that moment says), by direction
+	sb.WriteString("From KM Require Import Model.PwBackend.\n")
+	sb.WriteString("Definition fcases : list bcase := [\n" + strings.Join(fcases, ";\n") + "\n].\n")
+	sb.WriteString("Definition c07_backend_fresh_ncases := Eval vm_compute in length fcases.\nPrint c07_backend_fresh_ncases.\n")
+	sb.WriteString("Definition c07_backend_fresh_mismatches := Eval vm_compute in mismatches (fun c => negb (bcase_ok c)) fcases.\nPrint c07_backend_fresh_mismatches.\n")
+	sb.WriteString("Definition c07_backend_accepts_violating := Eval vm_compute in filter (fun i => match nth_error fcases i with Some c => bcase_violates true c | None => false end) c07_backend_fresh_mismatches.\nPrint c07_backend_accepts_violating.\n")
+	sb.WriteString("Definition c07_backend_refuses_violating := Eval vm_compute in filter (fun i => match nth_error fcases i with Some c => bcase_violates false c | None => false end) c07_backend_fresh_mismatches.\nPrint c07_backend_refuses_violating.\n")
+	ioutil.WriteFile(filepath.Join(verifOut(), "CasesC07b.idx"), []byte(strings.Join(fidx, "\n")+"\n"), 0644)
 	if err := ioutil.WriteFile(filepath.Join(verifOut(), "CasesC07.v"), []byte(sb.String()), 0644); err != nil {
 		t.Fatal(err)
 	}
